@@ -62,6 +62,8 @@ type Case struct {
 	// EProps (mode exec): resource index of every proposal of the delivery (deposit nonce = position)
 	EProps []int  `json:"eprops,omitempty"`
 	Mid    string `json:"mid,omitempty"`
+	// Builds (mode seq): a history of rawTx builds on ONE long-lived Executor
+	Builds []Build `json:"builds,omitempty"`
 }
 
 type In struct {
@@ -87,6 +89,8 @@ type Obs struct {
 	HandlerErr string   `json:"handler_err,omitempty"`
 	// mode exec: per schedule the transactions Execute started to build
 	ERuns [][]EGroup `json:"eruns,omitempty"`
+	// mode seq: per build [the long-lived Executor's run, a fresh Executor's run]
+	BRuns [][]Res `json:"bruns,omitempty"`
 }
 
 // ---- the fake mempool service ---------------------------------------------------------------
@@ -96,6 +100,11 @@ type service struct {
 	addr    string
 	listing []Utxo
 	rate    uint64
+	// faults (mode seq): utxoFail "" | "http500" | "badjson"; the feeFailAt-th fee request since
+	// the last reset is answered with an error (0: never)
+	utxoFail  string
+	feeFailAt int
+	feeCalls  int
 }
 
 func (s *service) ServeHTTP(w http.ResponseWriter, r *http.Request) {
@@ -103,9 +112,22 @@ func (s *service) ServeHTTP(w http.ResponseWriter, r *http.Request) {
 	defer s.mu.Unlock()
 	switch {
 	case r.URL.Path == "/api/v1/fees/recommended":
+		s.feeCalls++
+		if s.feeFailAt != 0 && s.feeCalls == s.feeFailAt {
+			http.Error(w, "fee service unavailable", http.StatusServiceUnavailable)
+			return
+		}
 		fmt.Fprintf(w, `{"fastestFee":%d,"halfHourFee":%d,"hourFee":%d,"economyFee":%d,"minimumFee":1}`,
 			s.rate+20, s.rate+10, s.rate+5, s.rate)
 	case r.URL.Path == "/api/address/"+s.addr+"/utxo":
+		switch s.utxoFail {
+		case "http500":
+			http.Error(w, "internal error", http.StatusInternalServerError)
+			return
+		case "badjson":
+			fmt.Fprint(w, `[{"txid":"00","vout":0,"status":{"confirmed":true`)
+			return
+		}
 		type status struct {
 			Confirmed   bool   `json:"confirmed"`
 			BlockHeight uint64 `json:"block_height"`
@@ -209,6 +231,9 @@ func run(c Case) Obs {
 	if c.Mode == "exec" {
 		return runExec(c)
 	}
+	if c.Mode == "seq" {
+		return runSeq(c)
+	}
 	par := params(c.Net)
 	bridgeAddr := must(btcutil.NewAddressTaproot(must(hex.DecodeString(c.Bridge)), par))
 	resource := btcconfig.Resource{Address: bridgeAddr, ResourceID: [32]byte{1}, Script: []byte{0x51}}
@@ -229,6 +254,7 @@ func run(c Case) Obs {
 		}
 		svc.mu.Lock()
 		svc.addr, svc.listing, svc.rate = bridgeAddr.String(), listing, c.Rate
+		svc.utxoFail, svc.feeFailAt, svc.feeCalls = "", 0, 0
 		svc.mu.Unlock()
 		props := make([]*btcexec.BtcTransferProposal, len(c.Props))
 		for i, p := range c.Props {
@@ -439,11 +465,19 @@ func genUtxos(r *vgen.Rng, n int, total uint64) []Utxo {
 	return us
 }
 
+// netOverride != "": genCaseWith builds its case for this network (histories: all builds of one
+// Executor share its network)
+var netOverride string
+
 func genCase(r *vgen.Rng, class string) Case { return genCaseWith(r, class, nil) }
 
 // genCaseWith: amts != nil fixes the number of proposals and their amounts.
 func genCaseWith(r *vgen.Rng, class string, amts []uint64) Case {
-	c := Case{Class: class, Net: vgen.Pick(r, nets), Bridge: hex.EncodeToString(r.Bytes(32)),
+	net := vgen.Pick(r, nets)
+	if netOverride != "" {
+		net = netOverride
+	}
+	c := Case{Class: class, Net: net, Bridge: hex.EncodeToString(r.Bytes(32)),
 		Cid: vgen.Pick(r, []string{"QmYwAPJzv5CZsnA625s3Xf2nemtYgPpHdWEz79ojWnPbdG", "bafybeigdyrzt5sfp7udm7hu76uh7y26nf3efuylqabf3oclgtqy55fbzdi", "Qm", ""})}
 	np := len(amts)
 	if amts == nil {
@@ -589,9 +623,30 @@ func gen(r *vgen.Rng, tier string) []Case {
 		c.Listings = listings(r, n, 4, 6)
 		out = append(out, c)
 	}
-	out = append(out, genMsg(r, tier)...)
-	out = append(out, genExec(r, tier)...)
-	return out
+	// the message- and Execute-level cases are cheap in the kernel: the costlier histories and large
+	// sets of round 4 are spread between them, so that no shard gets much heavier than the others
+	tail := append(genMsg(r, tier), genExec(r, tier)...)
+	tail = spread(tail, genSeq(r, tier))
+	// large sets cost mostly parsing time (proportional to their size): evenly over all shards
+	return spread(append(out, tail...), genBig(r, tier))
+}
+
+// spread puts the cases of `extra` evenly between those of `base`.
+func spread(base, extra []Case) []Case {
+	if len(extra) == 0 {
+		return base
+	}
+	out := make([]Case, 0, len(base)+len(extra))
+	every := len(base)/len(extra) + 1
+	j := 0
+	for i, c := range base {
+		if i%every == 0 && j < len(extra) {
+			out = append(out, extra[j])
+			j++
+		}
+		out = append(out, c)
+	}
+	return append(out, extra[j:]...)
 }
 
 // ---- Coq printing --------------------------------------------------------------------------------
@@ -659,6 +714,14 @@ func coq(c Case, o Obs) string {
 	if c.Mode == "exec" {
 		return coqExec(c, o)
 	}
+	if c.Mode == "seq" {
+		return coqSeq(c, o)
+	}
+	if c.Mode == "big" {
+		return "BigCase " + vgen.ListOf(c.Props, coqProp) + "\n    " + vgen.ListOf(c.Utxos, coqUtxo) + "\n    " +
+			zu(c.Rate) + " " + pack(must(hex.DecodeString(c.Bridge))) + " " + pack([]byte(c.Cid)) + " " +
+			vgen.Bool(!c.UploadFail) + "\n    " + vgen.ListOf(o.Runs, coqRes)
+	}
 	if c.Mode == "msg" {
 		ms := vgen.ListOf(c.Props, func(p Prop) string { return "(" + p.MsgAmount + ")%Z" })
 		return "MsgCase " + ms + " " + vgen.ListOf(c.Props, coqProp) + "\n    " + vgen.ListOf(c.Utxos, coqUtxo) + "\n    " +
@@ -684,9 +747,12 @@ func main() {
 		Kind:      func(c Case) string { return c.Class },
 		NonTrivial: func(c Case, o Obs) bool {
 			// non-trivial: at least one proposal and one UTXO (a selection and a sufficiency decision are made)
+			if c.Mode == "seq" {
+				return len(c.Builds) >= 2
+			}
 			return len(c.Props) > 0 && len(c.Utxos) > 0
 		},
-		ShardSize: 150,
-		Rule:      "1..5 proposals (all six recipient classes, accepted other-network segwit prefixes, invalid recipients), 0..10 UTXOs with equal block times / several outputs of one transaction, bridge totals aimed at out, out+fee_estimate, out+fee(k), out+fee(n), out+fee(1) each -2..+2 and random slack, fee rates around the rounding steps 0..500, every listing order for n<=3 (n<=4 for tie cases) else identity+reverse+2 shuffles; failing uploader, over-long CID, malformed and non-canonical txids; message level: 1..4 deposit messages through the real FungibleMessageHandler with amounts around 2^64 base units (+-2, x2..x5, powers of two 2^60..2^80), around multiples of 10^10 (remainders), up to the 21e14-satoshi supply x 10^10 and beyond 2^64 x 10^10, then rawTx as above; Execute level: every assignment of 2..4 proposals to three resources spanning at least two + random deliveries of up to 10 proposals over 2..4 resources, each through the real Executor.Execute under four schedules; distinct = distinct input JSON; non-trivial = at least one proposal and one UTXO (Execute level: at least two resources)",
+		ShardSize: 100,
+		Rule:      "1..5 proposals (all six recipient classes, accepted other-network segwit prefixes, invalid recipients), 0..10 UTXOs with equal block times / several outputs of one transaction, bridge totals aimed at out, out+fee_estimate, out+fee(k), out+fee(n), out+fee(1) each -2..+2 and random slack, fee rates around the rounding steps 0..500, every listing order for n<=3 (n<=4 for tie cases) else identity+reverse+2 shuffles; failing uploader, over-long CID, malformed and non-canonical txids; message level: 1..4 deposit messages through the real FungibleMessageHandler with amounts around 2^64 base units (+-2, x2..x5, powers of two 2^60..2^80), around multiples of 10^10 (remainders), up to the 21e14-satoshi supply x 10^10 and beyond 2^64 x 10^10, then rawTx as above; Execute level: every assignment of 2..4 proposals to three resources spanning at least two + random deliveries of up to 10 proposals over 2..4 resources, each through the real Executor.Execute under four schedules; histories (seq): 2..5 rawTx builds on ONE long-lived Executor (one mempool client, one uploader) with the fee rate and the UTXO set changing between builds and failing builds of every kind in between (bridge short of funds, empty set, UTXO service HTTP 500 / unparsable answer, malformed txid, invalid recipient, failing uploader, over-long CID, fee service failing at its first / second request), each build repeated on a fresh Executor; size boundaries (big): UTXO sets of 64/65/100/101/255/256/257/499/500/501/777/1000/1001/2000 entries with distinct values served oldest first / newest first / rotated, a set whose selection needs 65 inputs (257, 501 in the thorough tier), and transactions for 1/2/17/50/101/200/257 proposals; distinct = distinct input JSON; non-trivial = at least one proposal and one UTXO (Execute level: at least two resources)",
 	})
 }
